@@ -438,6 +438,12 @@ pub fn build_queries(tier: Tier) -> (Vec<Query>, Vec<String>) {
     }
     notes.push(format!("S3: {} record shapes per definition (step {}), {} queries", recs.len(), rstep, s3));
     let _ = n3;
+    // S5: the type that decides a side condition sits behind a definition or a chain of definitions
+    let n5 = qs.len();
+    for (env, s, t) in alias_neighbour_pairs("") {
+        qs.push(Query { env, s, t, family: "S5:side-conditions-through-aliases" });
+    }
+    notes.push(format!("S5: {} queries", qs.len() - n5));
     (qs, notes)
 }
 
@@ -797,7 +803,7 @@ pub fn run(tier: Tier, replay: Option<&str>) -> i32 {
     finish(
         &ctx,
         rep,
-        "queries = (environment, s, t); S1 all pairs of depth<=1 types and depth-2 types vs their 1- (thorough 2-) step neighbours; S2 all environments of two mutually recursive definitions over a 17-element right-hand-side alphabet vs every single-definition mutant (renamed), 10 top-level query shapes incl. opt-probe-then-reuse; S3 record pairs with one leaf flipped; S4 services over five method names (5 interfaces x every sub-interface and one-method-changed variants); every query also on types whose field and method vectors are reversed / rotated (left, right, both sides and definitions; subtype and subtype_check_all); each query with a fresh memo through subtype (Silence/Warning/Error), subtype_check_all, equal; transitivity on all triples of a reduced scope; text level (service_compatible / report / service_equal) with 6 order/renaming variants and 1-3 variants in which the method types go through a definition present on one side only that refers to the colliding names; E2 = BFS over sequences of successful queries sharing one memo (states merged on memo content), answer and memo-subset-of-relation invariant checked on every transition. states = reachable type pairs visited by the gfp oracle + memo states; non-trivial = related pairs.",
+        "queries = (environment, s, t); S1 all pairs of depth<=1 types and depth-2 types vs their 1- (thorough 2-) step neighbours; S2 all environments of two mutually recursive definitions over a 17-element right-hand-side alphabet vs every single-definition mutant (renamed), 10 top-level query shapes incl. opt-probe-then-reuse; S3 record pairs with one leaf flipped; S5 every primitive and five composites behind a definition and behind a chain of two, placed as record field (below / between / above other fields), variant payload, trailing function argument and result, service method component, under opt and vec, against every one-step neighbour of the shape in both directions; S4 services over five method names (5 interfaces x every sub-interface and one-method-changed variants); every query also on types whose field and method vectors are reversed / rotated (left, right, both sides and definitions; subtype and subtype_check_all); each query with a fresh memo through subtype (Silence/Warning/Error), subtype_check_all, equal; transitivity on all triples of a reduced scope; text level (service_compatible / report / service_equal) with 6 order/renaming variants and 1-3 variants in which the method types go through a definition present on one side only that refers to the colliding names; E2 = BFS over sequences of successful queries sharing one memo (states merged on memo content), answer and memo-subset-of-relation invariant checked on every transition. states = reachable type pairs visited by the gfp oracle + memo states; non-trivial = related pairs.",
         &["R3 (greatest fixed point over reachable pairs) is a correct reading of the spec's rules", "OptReport::Error is only required to be no more permissive than the spec"],
         json!({}),
     )
